@@ -240,6 +240,37 @@ pub fn c05() -> i32 {
         rep.absorb("b: burst outages: every non-empty set of link directions (quick: single directions and all), every start, every length below the timeout", out, &props,
             json!({"k": 0, "max_len_rounds": max_len, "scenarios": n}));
     }
+    // ---- (b2) every up/down pattern of the links, round by round, shorter than the timeout
+    {
+        let mut scns = Vec::new();
+        let depth = if t { 16 } else { 11 };
+        for (w, spec) in [(0usize, false), (1, false), (2, false), (8, false), (2, true)] {
+            for both in [false, true] {
+                let mut s = base_scn("c05-link-patterns", "1+1", w, 0, false, Pred::RepeatLast, Program::Changing, 1);
+                if spec {
+                    with_spec(&mut s, 0, 1);
+                }
+                let (a, b) = (s.peers[0].addr, s.peers[1].addr);
+                s.fault = packet_faults(1, depth, 0, Vec::new(), 0);
+                s.fault.link_rounds = if spec {
+                    if both { vec![vec![(a, 20), (20, a)]] } else { vec![vec![(20, a)]] }
+                } else if both {
+                    vec![vec![(b, a), (a, b)]]
+                } else {
+                    vec![vec![(b, a)]]
+                };
+                s.name = format!("{} both-directions={both}", s.name);
+                s.horizon = 1 + depth;
+                s.probe = probe_rounds(w, 1);
+                scns.push(s);
+            }
+        }
+        let n = scns.len();
+        let cfg = ExploreCfg { k: Some(depth as usize), wall: Duration::from_secs(if t { 1800 } else { 45 }), ..Default::default() };
+        let out = explore(&scns, &cfg, &judge);
+        rep.absorb("b2: every up/down pattern (all subsets of the rounds of the window) of one link direction or both together, between peers and towards a window-0 spectator", out, &props,
+            json!({"k": "all subsets of the window", "window_rounds": depth, "configs": n}));
+    }
     // ---- (c) stateful exploration of the input/ack stream
     {
         let mut scns = Vec::new();
